@@ -99,7 +99,10 @@ def run(tier, seed):
             R.guard("overlap_add-reads-one-block-per-hop-outputs", {"size": size, "hop": hop, "wnd": wnd is not None, "normalize": normalize}, ola)
         def ola_detect():
             src = Src(([float(i + j) for j in range(size)] for i in range(1000)), limit=40)
-            out = iter(overlap_add.list(src, hop=hop))          # size detected: documented one-block look-ahead
+            made = overlap_add.list(src, hop=hop)               # size detected: documented one-block look-ahead - when consumed, not when built
+            if src.pulled:
+                return False, "building overlap_add (size not given) read %d blocks" % src.pulled
+            out = iter(made)
             for k in range(2 * size):
                 next(out)
                 if src.pulled > k // hop + 2:
